@@ -72,8 +72,7 @@ theorem n_read (hl : s.LstS p0 a1 aN v) (hti : TI Lm tt rt s) {E : PyErr → Net
       s.w.clock + SPI_COST_NS ≤ s'.w.clock → (∀ b, r = some b → RxOk b ∧ s'.M + 1 ≤ s.M) →
       s'.node.frameBuf = s.node.frameBuf → Q r s') :
     wp E (liftRf (Rf24.read none)) Q s := by
-  have hlen : ∀ e ∈ (s.drv.w.radio s.drv.d.rid).rxFifo, 1 ≤ e.data.length := fun e he => (hti.rx e he).1
-  obtain ⟨r, ds, hex, hr⟩ := read_spec s.drv hl.2.1 hti.txs hti.feat hlen
+  obtain ⟨r, ds, hex, hr⟩ := read_spec s.drv hl.2.1 hti.txs hti.feat
   have hk := keeps_read false none s.drv s.drv (Same.refl _ _ hl.2.1)
   unfold dwp at hk
   rw [hex] at hk
@@ -87,14 +86,14 @@ theorem n_read (hl : s.LstS p0 a1 aN v) (hti : TI Lm tt rt s) {E : PyErr → Net
   rw [nexec_liftRf7, hex]
   apply hQ r _ l1 f1 t1 t2 hc
   · intro b hb
-    rcases hr with hr | ⟨e, rest, he, hre, hrest⟩
+    rcases hr with hr | ⟨e, rest, he, hre, hrest, hne⟩
     · rw [hr] at hb; cases hb
     · rw [hre] at hb
       cases hb
       have hmem : e ∈ s.rxq := by
         show e ∈ (s.drv.w.radio s.drv.d.rid).rxFifo
         rw [he]; exact List.mem_cons_self ..
-      refine ⟨hti.rx e hmem, ?_⟩
+      refine ⟨(hti.rx e hmem).resolve_left hne, ?_⟩
       have hn := NetState.node_putDrv s ds hl.1
       have hrx : (s.putDrv ds).rxq = rest := by
         unfold NetState.rxq
